@@ -59,7 +59,7 @@ PLAN["C04"] = std(mcq=[CWQ], mct=[CWT, SIMS])
 PLAN["C05"] = std(mcq=[WINQ], mct=[WINT, SIMS])
 PLAN["C07"] = std(mcq=[DAQ, U8Q, CWQ], mct=[DAT, U8T, CWT])
 PLAN["C07"]["thorough"]["miri"] = 48
-PLAN["C07"]["quick"]["miri"] = 4
+PLAN["C07"]["quick"]["miri"] = 2
 PLAN["C08"] = std(mcq=[CWQ, U8Q], mct=[CWT, U8T])
 FMQ, FMT = M("MC_Format", "quick"), M("MC_Format", "thorough", timeout=1800)
 PLAN["C09"] = std(mcq=[APIQ, FMQ], mct=[APIT, FMT], rq=("Replay_quick.cfg", SIMQ), rt=("Replay_thorough.cfg", SIMT))
